@@ -92,6 +92,9 @@ pub enum GenerateError {
     /// Object type has no known descriptor type mapping
     UnsupportedObjectType,
 
+    /// Bind group (register space) index is outside the range of argument buffers we generate
+    UnsupportedBindGroupIndex(u32),
+
     /// Intrinsic is not supported is the Metal target
     UnsupportedIntrinsic(&'static str),
 
